@@ -2,6 +2,7 @@
 //! {sid, name (enc|dec), in, exp, rel} and reports mismatches, or records events for trace validation.
 mod prelude;
 mod cu;
+mod pass;
 mod gen_types;
 
 use serde_json::{json, Value};
